@@ -33,6 +33,7 @@ func runC13(p *Prog, r *Report) {
 	c13R3(p, r)
 	indexGetTotalRule(p, r, "C13.R3b")
 	patternsUnmodifiedRule(p, r, "C13.R2g")
+	mapLookupNilRule(p, r, "C13.R2h")
 	c13R4(p, r)
 	c13R5(p, r)
 }
